@@ -92,7 +92,7 @@ def run(F, chk):
     stage_paths = {s['body'].path: s for s in sts}
     for s in sts:
         b = s['body']
-        res = lin.run_linearity(b, s['spec'], L1, L2, L7, min_recv=s['min_recv'], min_send=s['min_send'])
+        res = lin.run_linearity(b, s['spec'], L1, L2, L7, min_recv=s['min_recv'], min_send=s['min_send'], F=F)
         check_inspected(b, res, S4)
         check_blocking(F, b, S5)
     check_outflows(F, stage_paths, helper_paths, S3)
